@@ -126,7 +126,8 @@ func newScene(seed int64, idx int, nsrc int, rng *rand.Rand) *scene {
 	// a source with several invalid entries: drives the shared error state of the verification workers
 	good := w.NewLog(2)
 	var es []iface.IPFSLogEntry
-	for n := 0; n < 6; n++ {
+	nbad := []int{6, 6, 16, 17, 33, 40}[rng.Intn(6)] // also more refused entries in ONE merge than the log's concurrency limit (16)
+	for n := 0; n < nbad; n++ {
 		e, _ := good.Append(w.Ctx, []byte(fmt.Sprintf("bad-%d", n)), nil)
 		es = append(es, e)
 	}
